@@ -110,3 +110,25 @@ Print Assumptions C04_addrtab_shrink.
 Theorem C04_slot_shared : forall a slots, In a slots -> snd (find_or_add a slots) = slots.
 Proof. exact slot_shared. Qed.
 Print Assumptions C04_slot_shared.
+
+(* base address known when assembling vs. relocating to that base afterwards (x86 jmp/call/jcc imm, x86-64 [abs] encoded RIP-relative
+   with or without a trailing immediate: `next` is the end of the instruction in both paths): `known_rel32` is the field the assembler
+   emits at once; it exists exactly when relocate_to_base succeeds on the AbsToRel entry recorded otherwise, and is the same field *)
+Theorem C04_known_base_equiv : forall base asize atoff slots e,
+  e_kind e = RAbsToRel -> e_fmt e = fmt_of_kind K_Rel32 -> e_old e = 0 ->
+  let next := e_secoff e + e_off e + e_region e in
+  let abits := if asize <=? 4 then 32 else 64 in
+  (forall o s', relocate_entry base asize atoff slots e = inl (o, s') ->
+                known_rel32 abits base next (e_payload e) = Some (o_word o)) /\
+  (forall w, known_rel32 abits base next (e_payload e) = Some w ->
+             relocate_entry base asize atoff slots e = inl ({| o_word := w; o_rewrite := None; o_slot := None |}, slots)).
+Proof. exact known_base_equiv_rel. Qed.
+Print Assumptions C04_known_base_equiv.
+
+(* x86-64 call/jmp imm within rel32 reach: the address-table entry is patched to the field the known-base path emits, no rewrite *)
+Theorem C04_known_base_equiv_addr_entry : forall base asize atoff slots e opc w,
+  e_kind e = RAddrEntry opc -> e_fmt e = fmt_of_kind K_Rel32 -> e_old e = 0 -> 2 <= e_off e + e_lead e ->
+  known_rel32 64 base (e_secoff e + e_off e + e_region e) (e_payload e) = Some w ->
+  relocate_entry base asize atoff slots e = inl ({| o_word := w; o_rewrite := None; o_slot := None |}, slots).
+Proof. exact known_base_equiv_addr_entry. Qed.
+Print Assumptions C04_known_base_equiv_addr_entry.
